@@ -7,8 +7,10 @@
 //	       provider; after every label the harness records the label's output, the cache, the four
 //	       statistics counters and the two stacks, and Coq replays the labels on the LTS of
 //	       Model/InstanceCache.v and compares (Corr/C12.v).  time.Now() is read by the code directly,
-//	       so the passage of time is simulated by shifting every holder's stamps into the past; all
-//	       periods are k+0.5 s and all advances whole seconds, so no comparison is ever at equality.
+//	       so after every handleInstanceInfo / Peek the stamps just written are moved from the wall
+//	       clock onto an exact virtual time axis (hook VerifRebaseStamps); refresh ticks get the
+//	       virtual time.  Periods and clock advances are multiples of half a second, so ticks fall
+//	       exactly on the idle / expiry boundaries as well as next to them; stamps are compared too.
 //	async  the real Run + lookup dispatcher goroutines with a mock clock for the refresh ticker and
 //	       concurrent submitters; checked by monitors only (every submitted source queried, one answer
 //	       per position of every provider call, batch sizes, good data kept, eviction).
@@ -43,7 +45,7 @@ type resEntry struct {
 type opIn struct {
 	Op     string     `json:"op"` // submit send batch handle return refresh peek
 	S      string     `json:"s,omitempty"`
-	Adv    int64      `json:"adv,omitempty"` // whole seconds of simulated time before the op
+	Adv    int64      `json:"adv,omitempty"` // half seconds of virtual time that pass before the op
 	Res    []resEntry `json:"res,omitempty"`
 	NilMap bool       `json:"nilmap,omitempty"`
 	Err    bool       `json:"err,omitempty"`
